@@ -196,7 +196,7 @@ func vpSpecial(b *board.Board, c *CoeffSet[Score]) Score {
 // VpH_C17_special: every position with the two kings and up to three minor pieces (any mix of knights and bishops
 // of either colour on any squares) that falls into one of Eval's special material classes (insufficient material,
 // knight+bishop against the bare king): the special path is colour-symmetric (the mirror image scores the same from
-// the mover's point of view), and (whole=1) the REAL Eval computes the special path there.
+// the mover's point of view); VpH_C17_path shows that the REAL Eval computes the special path there.
 func VpH_C17_special() {
 	stm := Color(vp.Param("stm"))
 	b := board.VpSymBoardMinors(stm, vp.Param("wk"), vp.Param("bk"), 3)
@@ -205,9 +205,6 @@ func VpH_C17_special() {
 	vp.Assume(KNBvK(b) || insufficientMat(b))
 	vp.Assert(KNBvK(m) == KNBvK(b) && insufficientMat(m) == insufficientMat(b), "special-material-classes-symmetric")
 	vp.Assert(vpSpecial(b, c) == vpSpecial(m, c), "special-endings-symmetric")
-	if vp.Param("whole") == 1 {
-		vp.Assert(Eval(b, c) == vpSpecial(b, c), "special-endings-path-is-what-eval-computes")
-	}
 	vp.Cover("end")
 }
 
